@@ -24,10 +24,7 @@ def sh(cmd, timeout=None, cwd=None, inp=None, env=None):
 # ------------------------------------------------------------------------------------------
 # translator
 def load_gen_groups():
-    here = os.path.join(VERIF, 'gen')
-    for f in sorted(os.listdir(here)):
-        if f.startswith('grp_') and f.endswith('.py'):
-            __import__(f[:-3])
+    G.load_groups()
 
 def run_gen(groups):
     load_gen_groups()
@@ -131,7 +128,7 @@ def extract_model(pid):
 DEVICE_USER = ['supla_esp_gpio', 'supla_esp_input', 'supla_esp_cfg', 'supla_esp_cfgmode', 'supla_esp_cfgmode_html',
                'supla_esp_state', 'supla_update', 'supla_esp_countdown_timer', 'supla_esp_dns_client',
                'supla_esp_wifi', 'uptime', 'supla_esp_rs_fb']
-SAN = ['-g', '-O1', '-fsanitize=address,undefined', '-fno-sanitize-recover=all', '-fno-omit-frame-pointer']
+SAN = ['-g', '-O1', '-fsanitize=address,undefined', '-fno-sanitize=shift-base', '-fno-sanitize-recover=all', '-fno-omit-frame-pointer']
 
 def tree_hash():
     h = hashlib.sha256()
